@@ -9,6 +9,7 @@ facts used are explicit hypotheses: `FEqSymm` (== is symmetric) and `FEqLeGe`
 -/
 import Anko.Model.BinOp
 import Anko.Proofs.Equal
+import Anko.Gen.EqualFlow
 
 namespace Anko.C06
 open Anko
@@ -160,6 +161,71 @@ theorem map_with_a_key_the_other_lacks_is_not_equal (n : Nat) (xs ys : List (Val
 
 example (n : Nat) : deepEqF (n + 1) (.map [(.str [97], .nil)]) (.map [(.str [98], .nil)]) ≠ some true :=
   (map_with_a_key_the_other_lacks_is_not_equal n _ _ (.str [97]) .nil (by simp) (by simp [mapLookup, keyEq])).1
+
+/-! ### The decision structure of `equal` in the source (regenerated: Gen/EqualFlow)
+
+Every leaf statement of `equal`, `unwrapForEqual`, `numberFromString` and `isNum` (vm/vm.go) with the conditions it stands under is
+extracted on every run and compared with the table below, written next to the model: the stages are the ones `equalV` mirrors - open
+both interfaces; nil against nil / non-nil (`nil_only_nil`); look through one pointer (`unwrapForEqual`); a number against a string
+reads the string as a decimal numeral, the same rule on either side (`normStrNum_symm`, `int_str_decimal`, `num_str_nonnumeric`); two
+numbers: int64 comparison unless one is a float (`int_int`, `float_float`, `int_float_eq_iff_le_ge`); a bool against anything through
+`tryToBool` (`boolEq_symm`); everything else `reflect.DeepEqual` (`list_list`, `map_map`). A fast path in front of a stage, a stage
+moved or dropped, another conversion or a changed guard makes the tables differ. All four uses of the relation - `==`, `!=`, `in`,
+`switch` - are calls of this one function (`every_use_of_equality_calls_equal`; `ne_is_not_eq`, `in_cons`, `switch_uses_equal` give the
+model side). -/
+
+def equalLeaves : List (String × String) := [
+  ("equal", "L.Kind() == Interface && !L.IsNil() => L = L.Elem()"),
+  ("equal", "R.Kind() == Interface && !R.IsNil() => R = R.Elem()"),
+  ("equal", "lhsIsNil, rhsIsNil := isNil(L), isNil(R)"),
+  ("equal", "lhsIsNil && rhsIsNil => return true"),
+  ("equal", "(!lhsIsNil && rhsIsNil) || (lhsIsNil && !rhsIsNil) => return false"),
+  ("equal", "L = unwrapForEqual(L)"),
+  ("equal", "R = unwrapForEqual(R)"),
+  ("equal", "!L.IsValid() || !R.IsValid() => return L.IsValid() == R.IsValid()"),
+  ("equal", "isNum(L) && R.Kind() == String => var ok bool"),
+  ("equal", "isNum(L) && R.Kind() == String => R, ok = numberFromString(R)"),
+  ("equal", "(isNum(L) && R.Kind() == String) && !ok => return false"),
+  ("equal", "!(isNum(L) && R.Kind() == String) && (L.Kind() == String && isNum(R)) => var ok bool"),
+  ("equal", "!(isNum(L) && R.Kind() == String) && (L.Kind() == String && isNum(R)) => L, ok = numberFromString(L)"),
+  ("equal", "!(isNum(L) && R.Kind() == String) && (L.Kind() == String && isNum(R)) && !ok => return false"),
+  ("equal", "isNum(L) && isNum(R) => lhsKind := L.Kind()"),
+  ("equal", "isNum(L) && isNum(R) => rhsKind := R.Kind()"),
+  ("equal", "isNum(L) && isNum(R) => lhsIsFloat := lhsKind == Float32 || lhsKind == Float64"),
+  ("equal", "isNum(L) && isNum(R) => rhsIsFloat := rhsKind == Float32 || rhsKind == Float64"),
+  ("equal", "(isNum(L) && isNum(R)) && (!lhsIsFloat && !rhsIsFloat) => return toInt64(L) == toInt64(R)"),
+  ("equal", "(isNum(L) && isNum(R)) && lhsKind == rhsKind => return toFloat64(L) == toFloat64(R)"),
+  ("equal", "(isNum(L) && isNum(R)) && (lhsIsFloat && rhsIsFloat) => return numToString(L) == numToString(R)"),
+  ("equal", "isNum(L) && isNum(R) => return toFloat64(L) == toFloat64(R)"),
+  ("equal", "L.Kind() == Bool || R.Kind() == Bool => lhsB, err := tryToBool(L)"),
+  ("equal", "(L.Kind() == Bool || R.Kind() == Bool) && err != nil => return false"),
+  ("equal", "L.Kind() == Bool || R.Kind() == Bool => rhsB, err := tryToBool(R)"),
+  ("equal", "(L.Kind() == Bool || R.Kind() == Bool) && err != nil => return false"),
+  ("equal", "L.Kind() == Bool || R.Kind() == Bool => return lhsB == rhsB"),
+  ("equal", "return DeepEqual(L.Interface(), R.Interface())"),
+  ("unwrapForEqual", "v.Kind() == Interface && !v.IsNil() => v = v.Elem()"),
+  ("unwrapForEqual", "v.Kind() == Ptr && !v.IsNil() => v = v.Elem()"),
+  ("unwrapForEqual", "v.Kind() == Interface => v = v.Elem()"),
+  ("unwrapForEqual", "return v"),
+  ("numberFromString", "for _, r range v.String() && ((r < '0' || r > '9') && r != '+' && r != '-' && r != '.' && r != 'e' && r != 'E' && r != '_') => return v, false"),
+  ("numberFromString", "i, err := tryToInt64(v)"),
+  ("numberFromString", "err == nil => return ValueOf(i), true"),
+  ("numberFromString", "f, err := tryToFloat64(v)"),
+  ("numberFromString", "err == nil => return ValueOf(f), true"),
+  ("numberFromString", "return v, false"),
+  ("isNum", "v.Kind() in {Int, Int8, Int16, Int32, Int64, Uint, Uint8, Uint16, Uint32, Uint64, Uintptr, Float32, Float64} => return true"),
+  ("isNum", "return false")
+]
+
+theorem equal_is_decided_as_modelled : Gen.EqualFlow.leaves = equalLeaves := by decide +kernel
+
+theorem every_use_of_equality_calls_equal :
+    Gen.EqualFlow.callSites = [
+      ("vmExpr.go", "invokeIncludeExpr", "equal(itemExpr, runInfo.rv.Index(i))"),
+      ("vmOperator.go", "invokeComparisonOperator", "equal(lhsV, runInfo.rv)"),
+      ("vmOperator.go", "invokeComparisonOperator", "equal(lhsV, runInfo.rv)"),
+      ("vmStmt.go", "runSwitchStmt", "equal(runInfo.rv, value)")] := by
+  decide +kernel
 
 /-! ### Non-vacuity -/
 example : strToInt [49, 48, 48, 48, 48, 48, 48] = some 1000000#64 := by decide   -- "1000000"
